@@ -34,7 +34,7 @@ RULE = ("axis class drawn from all dataclasses of abtem.core.axes (18), each fie
 CLAUSES = ["roundtrip-type", "roundtrip-fields", "roundtrip-eq", "roundtrip-input-unchanged", "getitem-values", "getitem-meta",
            "concatenate-values", "concatenate-meta", "linear-coordinates", "pipeline-getitem", "pipeline-concatenate"]
 QUICK = dict(n=4000, time=40)
-THOROUGH = dict(n=40000, time=150, shards=16)
+THOROUGH = dict(n=320000, time=480, shards=16)
 
 NP_INDEX_TYPES = ["int64", "int32", "int16", "int8", "uint8", "uint16", "uint32", "uint64", "intp"]
 STRS = ["", "x", "thickness", "x, y", "Å", "1/Å", "mrad", "α β", "$\\alpha$", "e/Å^2", "a b [c]", "unknown"]
